@@ -30,7 +30,7 @@ func init() {
 		Shards: func(tier string) int { return 8 },
 		Run:    runC21,
 		Require: []string{"histories", "blocks_processed", "rollback_compares", "rollback_compares_equal", "reorg_rollbacks", "reorg_same_blocks", "reorg_new_blocks",
-			"forward_checks", "forward_checks_equal", "descent_steps", "replay_determinism_checks",
+			"forward_checks", "forward_checks_equal", "descent_steps", "replay_determinism_checks", "pow_cycle_completed", "pow_cycle_descents_across_rebase",
 			"tx_register_v1", "tx_register_v2", "tx_update", "tx_cancel", "tx_activate", "tx_vote_v1", "tx_cancel_vote_v1", "tx_deposit_topup", "tx_return_deposit",
 			"tx_exchange_votes", "tx_voting", "tx_voting_renewal", "tx_return_votes", "tx_illegal", "tx_revert_to_pow", "tx_revert_to_dpos", "tx_next_turn_dpos_info",
 			"blocks_with_confirm", "blocks_without_confirm", "blocks_in_pow_mode", "era_public_dpos", "era_new_cr", "era_dposv2_start", "histories_dposv2_active",
@@ -40,7 +40,7 @@ func init() {
 		Assumptions: []string{
 			"the CR committee seen by the DPoS state is emulated by the driver as a pure function of the chain prefix (election status, members, claimed node keys); member fields written by the DPoS state itself are left to the code under test and compared",
 			"transactions are generated so that the state preconditions of their SpecialContextCheck hold (read from the live state); signatures, fees and UTXO scripts are not produced because state-level processing never looks at them",
-			"rollback depth is restricted to what State.IsIrreversible permits at the tip (what reorganizeChain can perform); deeper rollbacks are exercised too but their divergences are only counted (deepdiff:*), not reported as violations",
+			"rollback depth is restricted to what State.IsIrreversible permits at the tip (what reorganizeChain can perform); deeper rollbacks are exercised too but their divergences are only counted (deepdiff:*), not reported as violations - EXCEPT for the irreversibility / consensus-mode bookkeeping (LastIrreversibleHeight, DPOSStartHeight, DPOSWorkHeight, RevertToPOWBlockHeight, ConsensusAlgorithm), which IsIrreversible is computed from and which is therefore judged at every depth within the history capacity",
 			"rollbacks never cross VoteStartHeight (reorganizeChain does not call OnRollbackTo below it)",
 		},
 		TimeoutS: func(tier string) int {
@@ -50,6 +50,15 @@ func init() {
 			return 600
 		},
 	})
+}
+
+// c21Bookkeeping: classes of the irreversibility / consensus-mode bookkeeping
+// (named explicitly by the property statement).
+var c21Bookkeeping = map[string]bool{
+	"StateKeyFrame.LastIrreversibleHeight": true, "Getter.LastIrreversibleHeight": true,
+	"StateKeyFrame.DPOSStartHeight": true, "StateKeyFrame.DPOSWorkHeight": true,
+	"StateKeyFrame.RevertToPOWBlockHeight": true,
+	"StateKeyFrame.ConsensusAlgorithm":     true, "Getter.ConsensusAlgorithm": true,
 }
 
 // the kit keeps at most 40 violations per shard: report every signature once
@@ -126,6 +135,20 @@ func c21StateLevel(c *kit.Ctx) {
 		}
 		h.cleanup()
 	}
+	// consensus-mode cycle: one scripted history per shard (its own PRNG stream,
+	// so that the other histories are unchanged)
+	{
+		rc := c.Rand("c21-l1-powcycle")
+		for k := 0; k < c.N(1, 4); k++ {
+			seed := rc.Int63()
+			h := &c21Hist{c: c, seed: seed, profile: 3, idx: 2000 + k, powCycle: true}
+			c.Begin("pow-cycle history shard=%d seed=%d", c.Shard, seed)
+			if p, v, st := kit.Guard(h.run); p {
+				h.panicked(v, st)
+			}
+			h.cleanup()
+		}
+	}
 	for i := 0; i < n; i++ {
 		seed := r.Int63()
 		profile := i % 5
@@ -190,6 +213,12 @@ type c21Hist struct {
 	// saveBoundary: long history with CheckPointConfiguration.NeedSave, one
 	// reorganisation across the first saved checkpoint height (720)
 	saveBoundary bool
+	// powCycle: the history runs a scripted RevertToPOW -> POW blocks ->
+	// RevertToDPOS -> DPOS cycle in the new-CR era and ends 8..11 blocks after
+	// DPOS work resumed, so that the final stepwise descent crosses the block
+	// on which the irreversible height is re-based and advances again
+	powCycle  bool
+	cycleDone bool
 	// a block preceded by a special payload has been rolled back since R was
 	// last pristine (its payload is remembered as "seen" by the instance)
 	rolledSpecial bool
@@ -366,9 +395,19 @@ func (h *c21Hist) report(prefix string, ds []c21Diff, tip, target uint32, reacha
 		return
 	}
 	for _, cl := range names {
+		permitted := "permitted by IsIrreversible"
 		if !reachable {
 			h.c.Inc("deepdiff:" + cl)
-			continue
+			// The irreversibility bookkeeping and the consensus mode are what
+			// IsIrreversible itself is computed from: whether a depth is
+			// "permitted" cannot be used to excuse a divergence in them (a too
+			// high LastIrreversibleHeight makes the node refuse reorganisations a
+			// correct node accepts). They are judged at every depth within the
+			// history capacity, as the property states.
+			if !c21Bookkeeping[cl] {
+				continue
+			}
+			permitted = "deeper than IsIrreversible permits at this tip; bookkeeping fields are judged at every depth"
 		}
 		ex := first[cl]
 		var sample []c21Diff
@@ -384,8 +423,8 @@ func (h *c21Hist) report(prefix string, ds []c21Diff, tip, target uint32, reacha
 		}
 		h.c.Inc("sigera|" + prefix + cl + "|" + era)
 		c21Violate(h.c, prefix+cl,
-			fmt.Sprintf("%s: era=%s tip H=%d rolled back to h=%d (depth %d, permitted by IsIrreversible): %s rolled-back=%s direct=%s",
-				mode, era, tip, target, tip-target, ex.Path, ex.A, ex.B),
+			fmt.Sprintf("%s: era=%s tip H=%d rolled back to h=%d (depth %d, %s): %s rolled-back=%s direct=%s",
+				mode, era, tip, target, tip-target, permitted, ex.Path, ex.A, ex.B),
 			map[string]interface{}{"history_seed": fmt.Sprint(h.seed), "shard": h.c.Shard, "history_index": h.idx, "profile": h.profile, "sched": h.s.String(),
 				"tip": tip, "target": target, "mode": mode, "era": era, "diffs_of_class": sample, "all_classes": names,
 				"blocks_rolled_back": h.opsBetween(lo, tip), "blocks_before": h.opsBetween(ctxLo, target)})
@@ -432,6 +471,15 @@ func (h *c21Hist) run() {
 	if h.saveBoundary {
 		h.g.Quiet = h.s.RecordSponsor + 10
 	}
+	if h.powCycle {
+		h.g.Nurture = true
+		h.g.CycleAt = h.s.NewCR + 3 + uint32(r.Intn(6))
+		if h.s.End < h.g.CycleAt+70 {
+			h.s.End = h.g.CycleAt + 70
+		}
+		c.Inc("pow_cycle_histories")
+	}
+	cycleExtra := uint32(8 + r.Intn(4))
 	h.R = h.newInst()
 	h.specs = []*C21Block{nil}
 	h.M = []*C21Model{NewC21Model(h.w, h.s)}
@@ -497,9 +545,24 @@ func (h *c21Hist) run() {
 			}
 			continue
 		}
+		if h.powCycle && ht+10 >= h.g.CycleAt {
+			// no reorganisations around the scripted cycle; stop once DPOS has
+			// been working again for cycleExtra blocks
+			a := h.R.arb
+			if pendingFwd == 0 && h.g.CycleDPOSSent && a.ConsensusAlgorithm == state.DPOS && a.DPOSWorkHeight != 0 && ht >= a.DPOSWorkHeight+cycleExtra {
+				h.cycleDone = true
+				c.Inc("pow_cycle_completed")
+				h.logf("POW-CYCLE complete: revertToPOW=%d DPOSWorkHeight=%d tip=%d LIH=%d DPOSStart=%d", a.RevertToPOWBlockHeight, a.DPOSWorkHeight, ht, a.LastIrreversibleHeight, a.DPOSStartHeight)
+				break
+			}
+			continue
+		}
 		if pendingFwd == 0 && ht > h.floor()+1 && r.Intn(100) < 9 {
 			pendingFwd = h.reorg(0)
 		}
+	}
+	if h.powCycle && !h.cycleDone {
+		c.Inc("pow_cycle_failed")
 	}
 	_ = stalled
 	if pendingFwd != 0 && h.R != nil {
@@ -704,7 +767,14 @@ func (h *c21Hist) finalDescent() {
 			lo = ck + 1
 		}
 	}
+	rebaseAt := uint32(0) // block on which DPOSStartHeight is re-based after a POW period
+	if h.cycleDone && L.arb.DPOSWorkHeight != 0 {
+		rebaseAt = L.arb.DPOSWorkHeight + 1
+	}
 	for t := H - 1; t >= lo; t-- {
+		if rebaseAt != 0 && t+1 == rebaseAt {
+			c.Inc("pow_cycle_descents_across_rebase")
+		}
 		if err := L.rollbackTo(t); err != nil {
 			c21Violate(c, "rollback-error", fmt.Sprintf("OnRollbackTo failed: %v", err), map[string]interface{}{"history_seed": fmt.Sprint(h.seed), "tip": H, "target": t})
 			break
